@@ -32,6 +32,13 @@ def cases(rng, tier, Case):
         docs.append(d)
     for _ in range(n):
         docs.append(mdgen.clean_utf8(mdgen.gen_doc(rng)))
+    # labels around the 999-character limit of CommonMark, followed by more tokens (seed C16-7)
+    for ln in (998, 999, 1000, 1001, 1500):
+        lab = ("x" * ln)
+        lab2 = ("ab " * (ln // 3 + 1))[:ln]
+        for L in (lab, lab2):
+            docs += ["see [foo][" + L + "] for *details*", "[" + L + "] `c` [bar]\n\n[bar]: /u", "[" + L + "]: /long\n\n[t][" + L + "] & [" + L + "][] x",
+                     "![a][" + L + "] <http://x.y> z"]
     for d in docs:
         cfg = rng.choice(["CsW", "CsW", "CsW1", "CsW2", mdgen.gen_cfg(rng)])
         res.append(Case("parse %s 100 RP %s" % (cfg, hx(d)), "probe", {"src": hx(d), "cfg": cfg}))
